@@ -196,7 +196,15 @@ pub fn generate_c16(run_seed: u64, thorough: bool) -> ListDesc {
     for _ in 0..nlists {
         // growth boundaries: capacity is 4/8/16/32 (8/16/32 for 1-byte elements); one list in
         // seven is long, so that anything done in chunks or batches has more than one chunk
-        let len = if g.r.chance(1, 7) { *g.r.pick(&[15usize, 16, 17, 24, 31, 32, 33, 40]) } else { *g.r.pick(&[0usize, 1, 3, 4, 4, 4, 7, 8, 8, 2]) };
+        // ... and one in forty is very long (more than one chunk even for a chunk size of 1024)
+        let cheap = matches!(elem, ElemKind::U8 | ElemKind::U32 | ElemKind::U64 | ElemKind::F64 | ElemKind::OptU64);
+        let len = if cheap && g.r.chance(1, 30) {
+            *g.r.pick(&[1023usize, 1024, 1025, 1040, 2050])
+        } else if g.r.chance(1, 7) {
+            *g.r.pick(&[15usize, 16, 17, 24, 31, 32, 33, 40])
+        } else {
+            *g.r.pick(&[0usize, 1, 3, 4, 4, 4, 7, 8, 8, 2])
+        };
         let v: Vec<MVal> = (0..len).map(|_| g.fresh()).collect();
         init.push(v);
     }
@@ -229,7 +237,11 @@ pub fn generate_c16(run_seed: u64, thorough: bool) -> ListDesc {
                     _ => g.r.below(len + 2),
                 }
             };
-            let kind = g.r.weighted(&[30, 26, 4, 5, 5, 3, 6, 7, 5, 2, 2, 3, 2, 1, 1]);
+            let mut kind = g.r.weighted(&[30, 26, 4, 5, 5, 3, 6, 7, 5, 2, 2, 3, 2, 1, 1]);
+            if len > 100 && matches!(kind, 8 | 11 | 12) {
+                // no element-by-element loops over very long lists (thousands of atomic steps)
+                kind = 4 + g.r.below(2) as usize;
+            }
             let mut origin = if g.r.chance(45, 100) { Origin::Script } else { Origin::Rust };
             let op = match kind {
                 0 if !by_ref && g.r.chance(1, 8) => {
